@@ -19,7 +19,9 @@ value and is not decided by simulation (DESIGN.md §0).
 from sim import canon
 from sim.engines.world import World
 
-ORACLES = ('user-object-changed', 'isolated-outcome')
+# (the class of a dumped object, with the plain-data attributes yatiml reads from it -
+# _yatiml_defaults - is part of what the object is made of)
+ORACLES = ('user-object-changed', 'user-class-changed', 'isolated-outcome')
 
 
 class DumpHist(World):
